@@ -1,4 +1,6 @@
 import Bmc.Proofs.C18
+import Bmc.Proofs.GenLoops.BuildAndSend
+import Bmc.Proofs.GenLoops.BuildAndSendCommand
 #print axioms Bmc.Proofs.C18.cnt_bump
 #print axioms Bmc.Proofs.C18.loop_laws
 #print axioms Bmc.Proofs.C18.command_laws
@@ -6,3 +8,12 @@ import Bmc.Proofs.C18
 #print axioms Bmc.Proofs.C18.gauges_do_not_drift
 #print axioms Bmc.Proofs.C18.wire_accounting
 #print axioms Bmc.Proofs.C18.instrumentation_sites
+#print axioms Bmc.Proofs.GenLoops.V2Session_buildAndSend_gen_eq
+#print axioms Bmc.Proofs.GenLoops.V2Session_buildAndSend_events_eq
+#print axioms Bmc.Proofs.GenLoops.V2Session_buildAndSend_expired_context
+#print axioms Bmc.Proofs.GenLoops.V2Session_SendCommand_gen_eq
+#print axioms Bmc.Proofs.GenLoops.V2Session_SendCommand_events_eq
+#print axioms Bmc.Proofs.GenLoops.V2Sessionless_buildAndSendCommand_gen_eq
+#print axioms Bmc.Proofs.GenLoops.V2Sessionless_buildAndSendCommand_events_eq
+#print axioms Bmc.Proofs.GenLoops.V2Sessionless_SendCommand_gen_eq
+#print axioms Bmc.Proofs.GenLoops.V2Sessionless_SendCommand_events_eq
